@@ -222,6 +222,67 @@ pub fn id_space_overlap_part(cov: &mut Cov) -> Option<Found> {
     None
 }
 
+/// Two clients whose requests agree in everything but the client id and the body: same parent (nil),
+/// same values in the headers that clients, proxies and tracing systems attach (idempotency keys,
+/// request / correlation ids, trace context, cookies, authorization, conditional headers). Each is
+/// served as itself: its own new version id, its own payload.
+pub fn shared_header_values_part(cov: &mut Cov) -> Option<Found> {
+    use crate::http::{HttpReq, CT_HISTORY, CT_SNAPSHOT};
+    use crate::subject::Kind;
+    const SHARED: [(&str, &str); 10] = [
+        ("Idempotency-Key", "8e03978e-40d5-43e8-bc93-6894a57f9324"),
+        ("X-Idempotency-Key", "first-sync"),
+        ("X-Request-Id", "req-1"),
+        ("X-Correlation-Id", "corr-1"),
+        ("Traceparent", "00-0af7651916cd43dd8448eb211c80319c-b7ad6b7169203331-01"),
+        ("Cookie", "session=abc"),
+        ("Authorization", "Bearer shared-token"),
+        ("If-None-Match", "*"),
+        ("If-Match", "*"),
+        ("X-Forwarded-For", "203.0.113.7"),
+    ];
+    for kind in [Kind::MEM_HTTP, Kind::SQL_HTTP] {
+        let mut subj = Subject::new(kind, Config::default()).ok()?;
+        for (hk, hv) in SHARED {
+            let fail = |m: String| Some(Found { property: "C09".into(), signature: format!("C09:shared-header {hk}"), msg: format!("[{}] two clients sending `{hk}: {hv}` with their first add-version: {m}", kind.name()), replay: json!({"origin": "shared-header-values", "case": 0}) });
+            let clients = [Uuid::new_v4(), Uuid::new_v4()];
+            let mut vids = vec![];
+            for (i, c) in clients.iter().enumerate() {
+                let body = format!("first segment of client {i} ({c})").into_bytes();
+                let r = subj.http(&HttpReq::new("POST", &format!("/v1/client/add-version/{}", Uuid::nil())).header("X-Client-Id", &c.to_string()).header("Content-Type", CT_HISTORY).header(hk, hv).body(body));
+                cov.evaluations += 1;
+                let Some(v) = r.header("X-Version-Id").and_then(|x| Uuid::parse_str(x).ok()).filter(|_| r.status == 200) else { return fail(format!("client {i} was answered {}", r.describe())) };
+                if vids.contains(&v) {
+                    return fail(format!("client {i} was answered with the version id {v} that the other client had been given"));
+                }
+                vids.push(v);
+                let s = subj.http(&HttpReq::new("POST", &format!("/v1/client/add-snapshot/{v}")).header("X-Client-Id", &c.to_string()).header("Content-Type", CT_SNAPSHOT).header(hk, hv).body(format!("snapshot of client {i}").into_bytes()));
+                if s.status != 200 {
+                    return fail(format!("client {i}'s add-snapshot was answered {}", s.describe()));
+                }
+            }
+            for (i, c) in clients.iter().enumerate() {
+                let want = format!("first segment of client {i} ({c})").into_bytes();
+                let r = subj.http(&HttpReq::new("GET", &format!("/v1/client/get-child-version/{}", Uuid::nil())).header("X-Client-Id", &c.to_string()).header(hk, hv));
+                if r.status != 200 || r.body != want || r.header("X-Version-Id") != Some(vids[i].to_string().as_str()) {
+                    // (conditional headers may legitimately turn a read into 304 / 412: no payload, not judged)
+                    if !(hk.starts_with("If-") && (r.status == 304 || r.status == 412)) {
+                        return fail(format!("client {i}'s first version is served as {}", r.describe()));
+                    }
+                }
+                let r = subj.http(&HttpReq::new("GET", "/v1/client/snapshot").header("X-Client-Id", &c.to_string()).header(hk, hv));
+                if r.status != 200 || r.body != format!("snapshot of client {i}").into_bytes() {
+                    if !(hk.starts_with("If-") && (r.status == 304 || r.status == 412)) {
+                        return fail(format!("client {i}'s snapshot is served as {}", r.describe()));
+                    }
+                }
+            }
+            cov.hit(format!("shared-header-values|{}|{hk}", kind.name()));
+        }
+    }
+    None
+}
+
 pub fn shard_run(tier: &str, seed: u64, shard: Shard) -> ShardOut {
     let thorough = tier == "thorough";
     let mut out = ShardOut::default();
